@@ -3149,6 +3149,10 @@ class Trimesh(Geometry3D):
         # get metadata
         copied.metadata = copy.deepcopy(self.metadata)
 
+        # per-vertex and per-face attributes are data of the mesh
+        copied.vertex_attributes = copy.deepcopy(self.vertex_attributes)
+        copied.face_attributes = copy.deepcopy(self.face_attributes)
+
         # make sure cache ID is set initially
         copied._cache.verify()
 
